@@ -745,3 +745,31 @@ Proof.
   - intro Ho. subst o.
     eapply never_exit_under_sound; [apply agrees_one; eassumption | eassumption | eassumption].
 Qed.
+
+(** ** no early, successful way out of a loop body *)
+Lemma no_escape_sound : forall rho (b : skel),
+  escapes b = false ->
+  forall t o, exec rho b t o -> o <> OBroke /\ o <> OReturned /\ o <> OExited 0.
+Proof.
+  intros rho b Hb t o Hex. induction Hex; simpl in Hb;
+    repeat match goal with
+    | Hx : _ || _ = false |- _ => apply orb_false_iff in Hx; destruct Hx
+    end;
+    try discriminate;
+    try (repeat split; discriminate);
+    try (match goal with IH : _ -> ?P |- ?P => apply IH; assumption end).
+  - (* stable if *) apply IHHex. destruct (rho l); assumption.
+  - (* loop iter *) apply IHHex2. simpl. apply orb_false_iff. split; assumption.
+  - (* try pass *)
+    destruct (IHHex1 ltac:(assumption)) as [A1 [A2 A3]]. destruct (IHHex2 ltac:(assumption)) as [B1 [B2 B3]].
+    unfold fin_out. destruct (is_normal o3); repeat split; assumption.
+  - (* try catch *)
+    destruct (IHHex2 ltac:(assumption)) as [A1 [A2 A3]]. destruct (IHHex3 ltac:(assumption)) as [B1 [B2 B3]].
+    unfold fin_out. destruct (is_normal o3); repeat split; assumption.
+  - (* try propagate *)
+    destruct (IHHex2 ltac:(assumption)) as [B1 [B2 B3]].
+    unfold fin_out. destruct (is_normal o3); repeat split; try assumption; discriminate.
+  - (* scope *)
+    destruct (IHHex Hb) as [A1 [A2 A3]]. destruct o; simpl; repeat split; try discriminate; assumption.
+  - (* exit *) repeat split; try discriminate. intro Hc. inversion Hc. subst. discriminate.
+Qed.
